@@ -31,17 +31,18 @@ func bScenarios() []bScn {
 	return []bScn{
 		{"diamond", w("1,2;3;3;;", "oooo", -2, "", 2), 0},
 		{"diamond-leaf-missing-ignored", w("1,2;3;3;;", "ooom", -2, "IM", 2), 0},
-		{"chain-shortcut-lim2", w("1,2;2;3;;", "oooo", 2, "", 2), 0},
 		{"chain-shortcut-lim1-skiproot", skip(w("1,2;2;3;;", "oooo", 1, "", 2)), 0},
 		{"doubled-edge", w("1,1;2;;", "ooo", -2, "", 2), 0},
-		{"two-missing-abort", w("1,2;;;", "omm", -2, "", 2), 0},
+		{"two-missing-abort", w("1,2;;;", "omm", -2, "", 2), 1},
 		{"shared-missing-onmissing-abort", w("1,2;3;3;;", "ooom", -2, "OM", 2), 0},
 		{"broken-swallowed-onerror", w("1,2;2;;", "oob", 0+3, "OEs", 2), 0},
 		{"provider-shared", prov(w("1,2;2;;", "ooo", -2, "", 2)), 0},
-		{"root-missing", w("1;;", "mo", -2, "", 2), 0},
+		{"root-missing", w("1;;", "mo", -2, "", 2), 1},
 		{"three-fetchers-diamond", w("1,2,3;3;3;;", "oooo", -2, "", 3), -1},
 		{"fetchgraph-diamond", fetch(w("1,2;3;3;;", "oooo", -1, "", 2)), 0},
 		{"fetchgraph-lim2-shortcut-missing", fetch(w("1,2;2;3;;", "ooom", 2, "IM", 2)), 0},
+		// largest last: a budget cut then costs the least
+		{"chain-shortcut-lim2", w("1,2;2;3;;", "oooo", 2, "", 2), 1},
 	}
 }
 
@@ -90,6 +91,7 @@ func (x *bExec) Check(res *vsched.Result) *eng.Violation {
 		return 0
 	}
 	sort.SliceStable(vs, func(i, j int) bool { return rank(vs[i]) < rank(vs[j]) })
+	vs[0].Detail += "\n" + x.e.describe(x.ex)
 	return vs[0]
 }
 
@@ -101,7 +103,7 @@ func scenarios() []*vexp.Scenario {
 		ex := model(&s.c, sh)
 		out = append(out, &vexp.Scenario{
 			Name: s.name, BoundDelta: s.delta,
-			Cfg: vsched.Config{MaxSteps: 20000, MaxIdleFires: 4, SelectCost: 1},
+			Cfg:  vsched.Config{MaxSteps: 20000, MaxIdleFires: 4, SelectCost: 1, SwitchCost: 1},
 			New: func() vexp.Exec { return &bExec{sc: &s, sh: sh, ex: ex} },
 		})
 	}
